@@ -340,10 +340,11 @@ def family_ctxnest(cat):
         for cf in (1, 2, 3):
             for chain in (False, True):
                 for acts in ([(1, 2), (2, 3)], [(0, 3), (1, 2), (2, 3)], [(2, 2), (0, 3)]):
-                    parent = ctx([rule([{1}, {2}, {1}], acts)], fmt=pf)
-                    child = ctx([rule([{2}], [(0, 4)]), rule([{1}], [(0, 4)])], fmt=cf, chain=chain)
-                    cat.add("ctxnest", [lookup([parent]), lookup([child]), lookup([single({1: 6, 2: 5})]),
-                                        lookup([single({1: 2, 2: 1})])])
+                    for pchain in (False, True):
+                        parent = ctx([rule([{1}, {2}, {1}], acts)], fmt=pf, chain=pchain)
+                        child = ctx([rule([{2}], [(0, 4)]), rule([{1}], [(0, 4)])], fmt=cf, chain=chain)
+                        cat.add("ctxnest", [lookup([parent]), lookup([child]), lookup([single({1: 6, 2: 5})]),
+                                            lookup([single({1: 2, 2: 1})])])
     # a nested contextual rule with two input glyphs, followed by another action of the parent
     for pf in (1, 2, 3):
         cat.add("ctxnest", [lookup([ctx([rule([{1}, {2}], [(0, 2), (1, 3)])], fmt=pf)]),
